@@ -1,10 +1,12 @@
 import Std.Data.HashMap
 import Crv.Reader
+import Crv.ReaderFile
 import Crv.Driver.Util
 /-!
 Line-protocol driver for stream `rd` (streaming CRL reader model).
   rd frames <hex>            → `q <kind>:<off>:<len> …` : the leaf-decoder queries of an optimistic run
   rd run <hex> <table>       → outcome line; table = `kind:off:len:answer,…` (answers of the real library)
+  rd file <hex>              → `pem=<bool> der=<hex>` : what `newHashingCRLReader` hands to the ASN.1 reader for this file
 -/
 namespace Crv.Driver.Rd
 open Crv Crv.Driver
@@ -118,6 +120,10 @@ def step (s : State) (ws : List String) : State × String :=
   | ["frames", h] =>
     match parseHex h with
     | some file => (s, "q " ++ showQueries (readCRL optimistic file).queries)
+    | none => (s, "bad-op")
+  | ["file", h] =>
+    match parseHex h with
+    | some file => (s, s!"pem={Pem.isPemFile file} der={toHex (fileBytes file)}")
     | none => (s, "bad-op")
   | ["run", h, spec] =>
     match parseHex h with
